@@ -28,6 +28,7 @@ Abstractions (stated, not hidden):
     driver refuses (`skip=1`) requests that combine them with an expression.
 -/
 import SophiaModel.Model.SparqlSpec
+import SophiaModel.Gen.SparqlDispatch
 
 namespace SophiaModel.Sparql
 open SophiaModel Term
@@ -307,26 +308,40 @@ def callFunction : Func → ER → Option ER
   | .isBlank, arg => some (erBool (match arg with | .term (.bnode _) => true | _ => false))
   | .isLiteral, arg => some (erBool (match arg with | .term t => termIsLiteral t | .value _ => true))
 
+/-- the `match (lhs, rhs)` of the `Or` arm -/
+def orTable : Option Bool → Option Bool → Option Bool
+  | some x, some y => some (x || y)
+  | some true, none => some true
+  | none, some true => some true
+  | _, _ => none
+
+/-- the `match (lhs, rhs)` of the `And` arm -/
+def andTable : Option Bool → Option Bool → Option Bool
+  | some x, some y => some (x && y)
+  | some false, none => some false
+  | none, some false => some false
+  | _, _ => none
+
 /-- `ArcExpression::eval` (after `from_expr`, which only copies) -/
 def evalExpr (b : Binding) : Expr → Option ER
   | .const t => some (.term t)
   | .var x => (b.v.get x).map .term
-  | .or l r => do
-    let lhs := (← evalExpr b l).isTruthy
-    let rhs := (← evalExpr b r).isTruthy
-    (match lhs, rhs with
-      | some x, some y => some (x || y)
-      | some true, none => some true
-      | none, some true => some true
-      | _, _ => none).map erBool
-  | .and l r => do
-    let lhs := (← evalExpr b l).isTruthy
-    let rhs := (← evalExpr b r).isTruthy
-    (match lhs, rhs with
-      | some x, some y => some (x && y)
-      | some false, none => some false
-      | none, some false => some false
-      | _, _ => none).map erBool
+  | .or l r =>
+    -- `lhs.eval(..)?.is_truthy()`; after notes/fixes/C13-logical-or-and-error.diff (detected by the
+    -- extractor): `lhs.eval(..).and_then(|e| e.is_truthy())`
+    if Gen.SparqlDispatch.orAndLenient then
+      (orTable ((evalExpr b l).bind ER.isTruthy) ((evalExpr b r).bind ER.isTruthy)).map erBool
+    else do
+      let lhs := (← evalExpr b l).isTruthy
+      let rhs := (← evalExpr b r).isTruthy
+      (orTable lhs rhs).map erBool
+  | .and l r =>
+    if Gen.SparqlDispatch.orAndLenient then
+      (andTable ((evalExpr b l).bind ER.isTruthy) ((evalExpr b r).bind ER.isTruthy)).map erBool
+    else do
+      let lhs := (← evalExpr b l).isTruthy
+      let rhs := (← evalExpr b r).isTruthy
+      (andTable lhs rhs).map erBool
   | .eq l r => do
     let lhs ← evalExpr b l
     let rhs ← evalExpr b r
@@ -410,9 +425,13 @@ def select (D : List Quad) : GP → List (Option Term) → Option Binding → Ex
     match binding.bind (fun b => b.v.get x) with
     | some name => select D inner [some name] binding
     | none => do
-      let _ ← select D inner [] binding
+      let r₀ ← select D inner [] binding
       let names := graphNameSet D
-      if names.isEmpty then select D inner [] binding
+      if names.isEmpty then
+        -- `self.select(inner, &[], binding)`; after notes/fixes/C13-graph-var-no-named-graph.diff
+        -- (detected by the extractor): no row, the variables of the probe
+        if Gen.SparqlDispatch.graphEmptyFixed then pure { vars := r₀.vars, rows := [] }
+        else select D inner [] binding
       else graphRec (select D inner) x binding names
   | .extend inner x e, gm, binding => do
     let r ← select D inner gm binding
